@@ -251,12 +251,16 @@ class ActionLink(Action):
             existing_targets = {a.target[0] for a in link_actions}
             if target in existing_targets:
                 raise ValueError(f'Target "{target}" is already a target of another link.')
+
+            def overlap(key, other):  # same key, or one is a group that contains the other
+                return key == other or key.startswith(other + ".") or other.startswith(key + ".")
+
             for src in [source] if isinstance(source, str) else source:
-                if src in existing_targets:
+                if any(overlap(src, t) for t in existing_targets):
                     raise ValueError(f'Source "{src}" not allowed since it is the target of another link.')
             # Check target
             existing_sources = {s[0] for a in link_actions for s in a.source if a.apply_on == "parse"}
-            if target in existing_sources:
+            if any(overlap(target, s) for s in existing_sources):
                 raise ValueError(f'Target "{target}" not allowed since it is the source of another link.')
 
     def __call__(self, *args, **kwargs):
